@@ -300,6 +300,37 @@ func c08Check(c C08Case, cx *h.Ctx) *h.Failure {
 				if verr != nil {
 					return h.Failf("decoder/returned-invalid", "%s (validating) returned a geometry that fails Validate: %v\ninput hex: %s", call.name, verr, clip(c.Hex, 400))
 				}
+				// ... and stays valid when the caller reuses the input buffer afterwards (the same entry point
+				// on a private copy of the input, which is then overwritten)
+				scratch := append([]byte(nil), data...)
+				for _, again := range c08Calls(c.Format, scratch) {
+					if again.name != call.name {
+						continue
+					}
+					var g2 geom.Geometry
+					var has2 bool
+					func() {
+						defer func() { recover() }()
+						g2, has2, _ = again.run()
+					}()
+					for i := range scratch {
+						scratch[i] = 0xFF
+					}
+					if has2 {
+						var verr2 error
+						func() {
+							defer func() {
+								if r := recover(); r != nil {
+									verr2 = fmt.Errorf("panic: %v", r)
+								}
+							}()
+							verr2 = g2.Validate()
+						}()
+						if verr2 != nil {
+							return h.Failf("decoder/result-aliases-input", "the geometry returned by %s fails Validate (%v) once the input buffer has been overwritten: it aliases its input\ninput hex: %s", call.name, verr2, clip(c.Hex, 400))
+						}
+					}
+				}
 			}
 			func() {
 				defer func() {
